@@ -6,7 +6,7 @@
 //!   seq_mani --replay replays/C13/....json
 
 use std::cell::RefCell;
-use std::collections::HashMap;
+use std::collections::{BTreeSet, HashMap};
 
 use mani::{Edit, Manifest};
 use manimc::mani_sub::{
@@ -438,6 +438,7 @@ fn cut_sweep(name: &str, ratio: u64, ops: &[Op], scratch: &Scratch, rep: &mut Re
             CutOutcome::Error(c) => format!("error:{c}"),
             CutOutcome::NotAPrefix(_) => "not-a-prefix".to_string(),
             CutOutcome::Panic(_) => "panic".to_string(),
+            CutOutcome::FollowUp(..) => "follow-up-edit-broken".to_string(),
         };
         rep.outcomes.insert(stable_hash(&("cut", pos, &class)));
         rep.count(&format!("cut_outcome_{}", class.replace(':', "_")), 1);
@@ -448,6 +449,7 @@ fn cut_sweep(name: &str, ratio: u64, ops: &[Op], scratch: &Scratch, rep: &mut Re
         let bad = match &o {
             CutOutcome::NotAPrefix(s) => Some(("state-is-no-prefix-state", format!("reopen succeeded with {s}"))),
             CutOutcome::Panic(p) => Some(("panic", format!("reopen panicked: {p}"))),
+            CutOutcome::FollowUp(i, e) => Some(("follow-up-edit-broken", format!("reopen gave the state after {i} edits, but then: {e}"))),
             _ => None,
         };
         if let Some((what, obs)) = bad {
@@ -548,6 +550,174 @@ fn lock_scenario(name: &str, scratch: &Scratch) -> Option<(bool, bool)> {
     }
 }
 
+/// Child: open the manifest and WAIT for the lock; print the strings it sees (one per line);
+/// optionally apply one edit of its own; exit 10 (12 = open failed, 13 = apply failed).
+fn child_wait_open(spec: &str) -> ! {
+    // spec = "<ratio>:<edit 0|1>:<dir>"
+    let mut it = spec.splitn(3, ':');
+    let ratio: u64 = it.next().unwrap().parse().unwrap();
+    let edit = it.next().unwrap() == "1";
+    let dir = it.next().unwrap();
+    let mut m = match Manifest::open(options(ratio, false), dir) {
+        Ok(m) => m,
+        Err(e) => {
+            eprintln!("{e}");
+            std::process::exit(12)
+        }
+    };
+    let mut out = String::new();
+    for s in m.strs() {
+        out += s;
+        out.push('\n');
+    }
+    // fd 1 may have been redirected by nobody here: this is the child's own pipe
+    use std::io::Write;
+    let _ = std::io::stdout().write_all(out.as_bytes());
+    let _ = std::io::stdout().flush();
+    if edit {
+        let mut e = Edit::default();
+        if e.add("from-b").is_err() || m.apply(e).is_err() {
+            std::process::exit(13);
+        }
+    }
+    drop(m);
+    std::process::exit(10)
+}
+
+/// Is process `pid` blocked inside fcntl(2) (the F_SETLKW of the lock file)?
+fn blocked_in_fcntl(pid: u32) -> bool {
+    match std::fs::read_to_string(format!("/proc/{pid}/syscall")) {
+        Ok(s) => s.starts_with("72 "),
+        Err(_) => false,
+    }
+}
+
+/// Two openers, one lock.  A opens, applies `before` edits; B starts and blocks on the lock; A
+/// applies `during` more edits (every one returns) and closes; B gets the lock.  The lock
+/// serialises the two, so (before, during) enumerates every interleaving at edit granularity.
+/// B must see every edit A was told had been applied, and so must a later reopen.
+/// Returns None when the machinery could not establish the schedule.
+fn waiting_opener(before: usize, during: usize, ratio: u64, b_edits: bool, scratch: &Scratch) -> Option<Result<(), (String, String)>> {
+    scratch.clear();
+    let dir = scratch.sub("m");
+    let mut m = Manifest::open(options(ratio, false), &dir).ok()?;
+    let mut want: BTreeSet<String> = BTreeSet::new();
+    let mut n = 0;
+    let mut apply_one = |m: &mut Manifest, want: &mut BTreeSet<String>| -> Option<()> {
+        let mut e = Edit::default();
+        let s = format!("e{n}");
+        e.add(&s).ok()?;
+        if n % 3 == 2 {
+            e.rm(&format!("e{}", n - 2)).ok()?;
+            want.remove(&format!("e{}", n - 2));
+        }
+        m.apply(e).ok()?;
+        want.insert(s);
+        n += 1;
+        Some(())
+    };
+    for _ in 0..before {
+        apply_one(&mut m, &mut want)?;
+    }
+    let exe = std::env::current_exe().ok()?;
+    let mut child = std::process::Command::new(exe)
+        .arg("--child-wait-open")
+        .arg(format!("{ratio}:{}:{}", if b_edits { 1 } else { 0 }, dir.display()))
+        .stdout(std::process::Stdio::piped())
+        .stderr(std::process::Stdio::null())
+        .spawn()
+        .ok()?;
+    let deadline = std::time::Instant::now() + std::time::Duration::from_secs(20);
+    while !blocked_in_fcntl(child.id()) {
+        if std::time::Instant::now() > deadline || child.try_wait().ok()?.is_some() {
+            let _ = child.kill();
+            let _ = child.wait();
+            return None;
+        }
+        std::thread::sleep(std::time::Duration::from_micros(200));
+    }
+    for _ in 0..during {
+        apply_one(&mut m, &mut want)?;
+    }
+    drop(m);
+    let out = child.wait_with_output().ok()?;
+    if out.status.code() != Some(10) {
+        return Some(Err((
+            "second-opener-failed".into(),
+            format!("the opener that waited for the lock exited with {:?}", out.status.code()),
+        )));
+    }
+    let seen: BTreeSet<String> = String::from_utf8_lossy(&out.stdout).lines().map(|l| l.to_string()).collect();
+    if seen != want {
+        return Some(Err((
+            "second-opener-saw-stale-state".into(),
+            format!("the opener that obtained the lock after the first closed saw {seen:?}; every one of the first opener's edits had returned, so it should see {want:?}"),
+        )));
+    }
+    if b_edits {
+        want.insert("from-b".into());
+    }
+    let m = match Manifest::open(options(ratio, false), &dir) {
+        Ok(m) => m,
+        Err(e) => return Some(Err(("reopen-failed".into(), format!("{e}")))),
+    };
+    let got: BTreeSet<String> = m.strs().map(|s| s.to_string()).collect();
+    drop(m);
+    if got != want {
+        return Some(Err((
+            "reopen-lost-acknowledged-edits".into(),
+            format!("after both openers closed, reopening yields {got:?}; acknowledged edits give {want:?}"),
+        )));
+    }
+    let errs: Vec<String> = Manifest::verify(options(ratio, false), &dir).map(|e| e.to_string()).collect();
+    if !errs.is_empty() {
+        return Some(Err(("verify-reports".into(), format!("Manifest::verify: {}", errs[0]))));
+    }
+    Some(Ok(()))
+}
+
+fn check_waiting_openers(scratch: &Scratch, rep: &mut Report, max_edits: usize) {
+    for ratio in [1u64, 2, 1000] {
+        for b_edits in [false, true] {
+            for before in 0..=max_edits {
+                for during in 0..=(max_edits - before) {
+                    rep.evaluations += 1;
+                    rep.transitions += (before + during + 3) as u64;
+                    let r = waiting_opener(before, during, ratio, b_edits, scratch);
+                    match r {
+                        None => rep.count("lock_scenarios_machinery_failed", 1),
+                        Some(Ok(())) => {
+                            rep.traces_validated += 1;
+                            rep.count("waiting_opener_schedules", 1);
+                            rep.states.insert(stable_hash(&("wait", ratio, b_edits, before, during)));
+                            rep.outcomes.insert(stable_hash(&("wait-ok", before + during, b_edits)));
+                        }
+                        Some(Err((sig, detail))) => {
+                            // replay before report
+                            match waiting_opener(before, during, ratio, b_edits, scratch) {
+                                Some(Err((s2, _))) if s2 == sig => {}
+                                _ => {
+                                    rep.count("non_reproducible_findings", 1);
+                                    continue;
+                                }
+                            }
+                            rep.outcomes.insert(stable_hash(&("wait-bad", &sig)));
+                            rep.violation(Violation {
+                                property: PROP.into(),
+                                signature: format!("c13:lock:waiting-opener:{sig}"),
+                                detail: format!("first opener applies {before} edits, second opener starts and blocks on the lock, first applies {during} more and closes (rollover ratio {ratio}, second opener {}): {detail}", if b_edits { "applies an edit" } else { "only reads" }),
+                                case: json!({"kind": "waiting-opener", "before": before, "during": during, "ratio": ratio, "b_edits": b_edits}),
+                            });
+                        }
+                    }
+                }
+            }
+        }
+    }
+}
+
+static THOROUGH: std::sync::atomic::AtomicBool = std::sync::atomic::AtomicBool::new(false);
+
 const LOCK_SCENARIOS: [&str; 3] = ["held", "held-after-refused-second-open-in-process", "released"];
 
 fn check_locks(scratch: &Scratch, rep: &mut Report) {
@@ -604,6 +774,9 @@ fn main() {
     if let Some(d) = args.get("child-lock-probe") {
         child_lock_probe(d);
     }
+    if let Some(spec) = args.get("child-wait-open") {
+        child_wait_open(spec);
+    }
     vcore::quiet_panics();
     silence();
     options_selfcheck();
@@ -612,6 +785,7 @@ fn main() {
         replay(&rf);
     }
     let thorough = args.tier_thorough();
+    THOROUGH.store(thorough, std::sync::atomic::Ordering::Relaxed);
     let plan = args
         .get("plan")
         .unwrap_or(if thorough { "full:2,full:3:prune,core:4,tiny:5" } else { "full:2,core:3" })
@@ -679,7 +853,10 @@ fn main() {
         let scratch = Scratch::new("mani");
         match w {
             Work::Newlines => check_newlines(rep),
-            Work::Locks => check_locks(&scratch, rep),
+            Work::Locks => {
+                check_locks(&scratch, rep);
+                check_waiting_openers(&scratch, rep, if THOROUGH.load(std::sync::atomic::Ordering::Relaxed) { 6 } else { 4 });
+            }
             Work::Cut(name, ratio, ops) => cut_sweep(name, *ratio, ops, &scratch, rep),
             Work::Bytes(ops) => {
                 let alpha = Alphabet { name: "byte-sweep", strings: vec![], keys: vec![], pair_strings: vec![] };
@@ -793,7 +970,27 @@ fn replay(rf: &Value) -> ! {
             ));
             let o = cut_and_reopen(&scratch, &p, ratio, cut);
             say(&format!("observed: {o:?}"));
-            matches!(o, CutOutcome::NotAPrefix(_) | CutOutcome::Panic(_))
+            matches!(o, CutOutcome::NotAPrefix(_) | CutOutcome::Panic(_) | CutOutcome::FollowUp(..))
+        }
+        "waiting-opener" => {
+            let (before, during) = (case["before"].as_u64().unwrap() as usize, case["during"].as_u64().unwrap() as usize);
+            let ratio = case["ratio"].as_u64().unwrap();
+            let b_edits = case["b_edits"].as_bool().unwrap();
+            say(&format!("first opener applies {before} edits, second opener blocks on the lock, first applies {during} more and closes (ratio {ratio}, second opener edits: {b_edits})"));
+            match waiting_opener(before, during, ratio, b_edits, &scratch) {
+                None => {
+                    say("machinery: could not establish the schedule");
+                    std::process::exit(2);
+                }
+                Some(Ok(())) => {
+                    say("no finding: the second opener and the final reopen see every acknowledged edit");
+                    false
+                }
+                Some(Err((sig, detail))) => {
+                    say(&format!("finding c13:lock:waiting-opener:{sig}: {detail}"));
+                    true
+                }
+            }
         }
         "newline" => {
             let name = case["name"].as_str().unwrap_or("");
